@@ -120,14 +120,15 @@ class CheckC08(core.Check):
                         kw[k] = ov[k]
                 c.party(pid, "i" if ini else "r", ov.get("name", name), rng="script:%d%s" % (seed, pid[0]), prologue=ov.get("prologue"), rec="-", **kw)
             b0, b1 = c.op("build", ids[0]), c.op("build", ids[1])
-            lp = c.op("pingpong", a=ids[0], b=ids[1], max=8, plen=3, seed="cx")
+            # empty payloads matter: then a bare 16-byte tag is all that authenticates the transcript
+            lp = c.op("pingpong", a=ids[0], b=ids[1], max=8, plen=rnd.choice([0, 0, 3, 40]), seed="cx")
             tr = []
             c.op("to_transport", ids[0])
             c.op("to_transport", ids[1])
-            c.op("t_write", ids[0], pay="gen:9:a", buf=BIG, out="ta%d" % j)
+            c.op("t_write", ids[0], pay=rnd.choice(["gen:9:a", "-"]), buf=BIG, out="ta%d" % j)
             tr.append(c.op("t_read", ids[1], msg="$ta%d" % j, buf=BIG))
             if not parsed.oneway:
-                c.op("t_write", ids[1], pay="gen:9:b", buf=BIG, out="tb%d" % j)
+                c.op("t_write", ids[1], pay=rnd.choice(["gen:9:b", "-"]), buf=BIG, out="tb%d" % j)
                 tr.append(c.op("t_read", ids[0], msg="$tb%d" % j, buf=BIG))
             subs.append((label, b0, b1, lp, tr))
         c.meta["subs"] = subs
